@@ -9,7 +9,7 @@
    and returns the final system state and one observation per operation.  All theorems quantify over
    every such sequence and every limit (no bound). *)
 From AV Require Import Lib.Base Generated.StreamGen Model.Stream
-  Proofs.StreamBase Proofs.StreamInv Proofs.StreamFlow Proofs.StreamDeliver Proofs.StreamEof Proofs.StreamChunk.
+  Proofs.StreamBase Proofs.StreamInv Proofs.StreamFlow Proofs.StreamDeliver Proofs.StreamEof Proofs.StreamChunk Proofs.StreamFuel Proofs.StreamChunkExact.
 Open Scope Z_scope.
 
 (* ---- exact ordered delivery ------------------------------------------------------------------
@@ -62,6 +62,25 @@ Theorem C08_chunk_boundary_sound : forall limit ops o y' d,
   In (cursor (sst y')) (endlog (sst y')).
 Proof. exact chunk_sound. Qed.
 Print Assumptions C08_chunk_boundary_sound.
+
+(* Exactness, for a consumer that reads only with readchunk (async for ... in iter_chunks()), under
+   every producer behaviour: the positions reported so far, followed by the splits still pending, are
+   exactly the positions recorded by end_http_chunk_receiving: none skipped, none invented, in order.
+   (With other reads mixed in, boundaries the cursor has passed are dropped by design; soundness above
+   still holds.) *)
+Theorem C08_chunk_boundaries_exact : forall limit ops,
+  Forall chunk_only_op ops ->
+  endlog (sst (fst (run ops (init_sys limit)))) =
+  reports ops (init_sys limit) ++ rem (sst (fst (run ops (init_sys limit)))).
+Proof. exact chunk_exact. Qed.
+Print Assumptions C08_chunk_boundaries_exact.
+
+(* ---- the model's own artefacts are unreachable: recursion fuel always suffices and
+   `self._buffer[0]` is never evaluated on an empty deque, in every run *)
+Theorem C08_no_model_artefact : forall limit ops,
+  Forall clean_obs (snd (run ops (init_sys limit))).
+Proof. exact run_clean. Qed.
+Print Assumptions C08_no_model_artefact.
 
 (* ---- back-pressure ------------------------------------------------------------------------------ *)
 
